@@ -94,6 +94,15 @@ def model_check_recovery(c, tier):
 
 
 def replay_trace(prop, path, seed):
+    if os.path.basename(path).startswith("%s-soak-" % prop) or path.endswith(".json") and '"cmd": "axv soak' in open(path).read()[:4000]:
+        # a soak replay file names the command that failed: run it again
+        cmd = json.load(open(path))["cmd"].split()[1:]
+        rc, so, _ = vlib.axv(cmd + ["--dir", os.path.join(vlib.workdir(prop.lower() + "-replay"), "soak")], timeout=1800, check=False)
+        st = last_json(so) if rc == 0 else None
+        if st is None or st["bad"] or st["differing"]:
+            print("VIOLATION property=%s replay=%s" % (prop, path))
+            return 1
+        return 0
     c = Check(prop, "quick", seed, "model_checking")
     wd = vlib.workdir(prop.lower() + "-replay")
     ok, r, _ = validate(c, wd, path, "replay")
@@ -102,3 +111,28 @@ def replay_trace(prop, path, seed):
         print("VIOLATION property=%s replay=%s" % (prop, path))
         return 1
     return 0
+
+
+def soak_leg(c, wd, tier, seed, prop):
+    """axv soak: a table that does not fit the cache scanned thousands of times (more than 65536 evictions): the answer never
+    changes and no scan panics, fails or hangs - the long behaviours of Cache.tla (any number of Evict / Load steps) on the code."""
+    import json
+    scans = 2400 if tier == "quick" else 12000
+    cache = [16, 24, 12, 20][seed % 4]
+    try:
+        rc, so, _ = vlib.axv(["soak", "--scans", scans, "--cache", cache, "--dir", os.path.join(wd, "soak")], timeout=1800, check=False)
+    except ToolError:
+        rc, so = "timeout", ""
+    st = None
+    for line in reversed(so.splitlines() if so else []):
+        if line.startswith("{"):
+            st = json.loads(line); break
+    if rc != 0 or st is None:
+        rp = vlib.save_replay(prop, "soak-%d.json" % seed, {"cmd": "axv soak --scans %d --cache %d" % (scans, cache), "exit": str(rc)})
+        c.violation("the soak run did not finish (exit %s): a scan hung or the process died" % rc, rp)
+        return
+    c.add("soak_scans", st["scans"]); c.add("soak_evictions_at_least", st["evictions_at_least"])
+    c.add("statements", st["scans"])
+    if st["bad"] or st["differing"]:
+        rp = vlib.save_replay(prop, "soak-%d.json" % seed, dict(st, cmd="axv soak --scans %d --cache %d" % (scans, cache)))
+        c.violation("under a cache of %d pages a scan failed or changed its answer after many evictions: %s" % (cache, "; ".join(st["bad"])[:400]), rp)
